@@ -221,6 +221,25 @@ FormatQ(q) ==
         frac == CASE a % 4 = 0 -> <<>> [] a % 4 = 1 -> <<46, 50, 53>> [] a % 4 = 2 -> <<46, 53>> [] OTHER -> <<46, 55, 53>>
     IN  (IF q < 0 THEN <<45>> ELSE <<>>) \o Itoa(a \div 4) \o frac
 
+(* The emulator's glob (redisGlob.go): a bracket class is the literal set of its characters
+   (backslash escapes the next one) - no '^' negation, no 'a-z' ranges.                  *)
+RECURSIVE EmuClass(_, _)
+EmuClass(p, acc) ==       \* p starts after '['; returns [set, rest]
+    IF p = <<>> THEN [set |-> acc, rest |-> <<>>]
+    ELSE IF p[1] = 93 THEN [set |-> acc, rest |-> Tail(p)]
+    ELSE IF p[1] = 92 /\ Len(p) >= 2 THEN EmuClass(SubSeq(p, 3, Len(p)), acc \cup {p[2]})
+    ELSE EmuClass(Tail(p), acc \cup {p[1]})
+
+RECURSIVE EmuGlob(_, _)
+EmuGlob(p, s) ==
+    IF s = <<>> THEN \A i \in 1..Len(p) : p[i] = 42
+    ELSE IF p = <<>> THEN FALSE
+    ELSE IF p[1] = 63 THEN EmuGlob(Tail(p), Tail(s))
+    ELSE IF p[1] = 42 THEN Len(p) = 1 \/ \E j \in 0..(Len(s) - 1) : EmuGlob(Tail(p), SubSeq(s, j + 1, Len(s)))
+    ELSE IF p[1] = 91 THEN LET c == EmuClass(Tail(p), {}) IN s[1] \in c.set /\ EmuGlob(c.rest, Tail(s))
+    ELSE IF p[1] = 92 /\ Len(p) >= 2 THEN p[2] = s[1] /\ EmuGlob(SubSeq(p, 3, Len(p)), Tail(s))
+    ELSE p[1] = s[1] /\ EmuGlob(Tail(p), Tail(s))
+
 \* lexicographic byte order (for SORT ALPHA and canonical listings)
 RECURSIVE BytesLess(_, _)
 BytesLess(a, b) == IF b = <<>> THEN FALSE
